@@ -85,6 +85,29 @@ def spec_graph(mol):
     return nodes, edges, layout, lists
 
 
+def graph_dump(G):
+    nodes = sorted((int(i), d.get("atomic_num"), d.get("formal_charge"), d.get("aromatic")) for i, d in G.nodes(data=True))
+    edges = sorted((int(u), int(v), int(d["bond_type"]), tuple(sorted((k, float(x)) for k, x in d.items() if k.endswith("_weight")))) for u, v, d in G.edges(data=True))
+    return nodes, edges
+
+
+def rebuilt_graph_differs(mol, expect):
+    """the graph is a function of the molecule: building it again on the same object (generate() is public and is what the constructor
+    calls) must give the same nodes and edges.  Returns a description of the first difference or None."""
+    sag = mol.gen_stochastic_atom_graph(expect)
+    first = graph_dump(sag.graph)
+    try:
+        sag.generate()
+    except Exception as e:  # noqa
+        return f"second generate() on the same StochasticAtomGraph raised {type(e).__name__}: {str(e)[:60]}"
+    second = graph_dump(sag.graph)
+    if first == second:
+        return None
+    if first[0] != second[0]:
+        return f"second generate() on the same StochasticAtomGraph: nodes {second[0][:3]}... instead of {first[0][:3]}..."
+    return f"second generate() on the same StochasticAtomGraph: edges differ, e.g. {sorted(set(second[1]) ^ set(first[1]))[:2]}"
+
+
 def check(rep):
     import gbigsmiles
 
@@ -145,6 +168,12 @@ def check(rep):
             # multi-edges with identical attributes collapse in the set view: compare on the underlying pair
             rep.fail("oracle", f"admissible link {x[0]} -> {x[1]} ({x[3]}, weight {x[4]}) is missing", {**ident, "edge": list(x)}, expected=list(x), observed="absent",
                      tags={"list_descriptor_termination_duplicate"} if (agree and lists and x[3] in ("stochastic", "termination")) else set())
+        try:
+            why = rebuilt_graph_differs(mol, bool(sz and mol.generable))
+        except Exception as e:  # noqa
+            why = f"rebuilding the graph raised {type(e).__name__}"
+        if why:
+            rep.fail("oracle", why, {**ident, "history": "gen_stochastic_atom_graph(); .generate()"}, expected="the same graph", observed="another graph")
         if len(ie) > 4:
             distinct.add(text)
     rep.coverage.update({"evaluations": evaluations, "distinct_nontrivial": len(distinct), "nodes_checked": nn, "edges_checked": ne,
@@ -165,4 +194,5 @@ def replay(case):
     nodes, want, layout, lists = spec_graph(mol)
     print("not admissible:", sorted(set(ie) - want)[:6])
     print("missing:", sorted(want - set(ie))[:6])
+    print("rebuilt on the same object:", rebuilt_graph_differs(mol, False))
     return 1
